@@ -58,12 +58,12 @@ __CPROVER_ensures(g_dealloc_calls == 1 && g_dealloc_id == self->_instance_id && 
 __CPROVER_ensures(g_lines[g_k].value[self->_cacheline_offset] == 0 && g_lines[g_k].value[g_other] == g_other_old)
 ;
 //@loop CTL_CompactEnumerableThreadLocal_lambda_thread_local_dtor_CompactEnumerableThreadLocal_1_op_call 1
-//@  VF_REBASE(@p1@, g_lines)
-//@  __CPROVER_assigns(@p1@, __CPROVER_object_whole(g_lines))
-//@  __CPROVER_loop_invariant(__CPROVER_same_object(@p1@, g_lines) && (size_t)__CPROVER_POINTER_OFFSET(@p1@) <= g_nlines * sizeof(Line_t) && (size_t)__CPROVER_POINTER_OFFSET(@p1@) % sizeof(Line_t) == 0)
-//@  __CPROVER_loop_invariant(__CPROVER_loop_entry(@p1@) <= @p1@ && @p1@ <= @p2@)
-//@  __CPROVER_loop_invariant((g_lines + g_k >= __CPROVER_loop_entry(@p1@) && g_lines + g_k < @p1@) ==> g_lines[g_k].value[self->cap_this->_cacheline_offset] == 0)
-//@  __CPROVER_loop_invariant((g_lines + g_k < __CPROVER_loop_entry(@p1@) || g_lines + g_k >= @p1@) ==> g_lines[g_k].value[self->cap_this->_cacheline_offset] == __CPROVER_loop_entry(g_lines[g_k].value[self->cap_this->_cacheline_offset]))
+//@  VF_REBASE(@p1:iter@, g_lines)
+//@  __CPROVER_assigns(@p1:iter@, __CPROVER_object_whole(g_lines))
+//@  __CPROVER_loop_invariant(__CPROVER_same_object(@p1:iter@, g_lines) && (size_t)__CPROVER_POINTER_OFFSET(@p1:iter@) <= g_nlines * sizeof(Line_t) && (size_t)__CPROVER_POINTER_OFFSET(@p1:iter@) % sizeof(Line_t) == 0)
+//@  __CPROVER_loop_invariant(__CPROVER_loop_entry(@p1:iter@) <= @p1:iter@ && @p1:iter@ <= @p2:end@)
+//@  __CPROVER_loop_invariant((g_lines + g_k >= __CPROVER_loop_entry(@p1:iter@) && g_lines + g_k < @p1:iter@) ==> g_lines[g_k].value[self->cap_this->_cacheline_offset] == 0)
+//@  __CPROVER_loop_invariant((g_lines + g_k < __CPROVER_loop_entry(@p1:iter@) || g_lines + g_k >= @p1:iter@) ==> g_lines[g_k].value[self->cap_this->_cacheline_offset] == __CPROVER_loop_entry(g_lines[g_k].value[self->cap_this->_cacheline_offset]))
 //@  __CPROVER_loop_invariant(g_lines[g_k].value[g_other] == g_other_old)
 //@end
 #endif
